@@ -6,8 +6,11 @@ VERIF = os.path.dirname(os.path.dirname(os.path.abspath(__file__)))
 REPO = os.environ.get("VERIF_REPO", "/repo")
 BUILD = os.path.join(VERIF, ".build")
 LEAN = os.path.join(VERIF, "lean")
-HARNESS = os.path.join(BUILD, "verifharness")
-MDRIVER = os.path.join(LEAN, ".lake", "build", "bin", "mdriver")
+# Per-process copies of both binaries: several checks (or bin/seedtest runs against different trees) may run at
+# the same time, and none of them may execute a binary another one is rebuilding.
+HARNESS = os.path.join(BUILD, "verifharness-%d" % os.getpid())
+MDRIVER_BUILT = os.path.join(LEAN, ".lake", "build", "bin", "mdriver")
+MDRIVER = os.path.join(BUILD, "mdriver-%d" % os.getpid())
 ALLOWED_AXIOMS = {"propext", "Classical.choice", "Quot.sound"}
 
 GOENV = dict(os.environ, GOFLAGS="-mod=mod", GOPROXY="off", GOSUMDB="off", GOTOOLCHAIN="local",
@@ -25,6 +28,40 @@ def sh(cmd, cwd=None, env=None, timeout=3600, inp=None):
     p = subprocess.run(cmd, cwd=cwd, env=env, timeout=timeout, input=inp,
                        stdout=subprocess.PIPE, stderr=subprocess.STDOUT, text=True)
     return p.returncode, p.stdout
+
+
+class build_lock:
+    """Exclusive lock around everything that writes shared build state (generated Lean tables, lake build
+    outputs, the audit scratch files).  Case execution happens outside of it, on per-process binaries."""
+    def __enter__(self):
+        import fcntl
+        os.makedirs(BUILD, exist_ok=True)
+        self.f = open(os.path.join(BUILD, "lock"), "w")
+        fcntl.flock(self.f, fcntl.LOCK_EX)
+        return self
+
+    def __exit__(self, *a):
+        import fcntl
+        fcntl.flock(self.f, fcntl.LOCK_UN)
+        self.f.close()
+
+
+def snapshot_driver():
+    """Copies the freshly built model driver to this process's private path (call under build_lock)."""
+    if os.path.exists(MDRIVER_BUILT):
+        shutil.copy2(MDRIVER_BUILT, MDRIVER)
+
+
+def _cleanup():
+    for f in (HARNESS, MDRIVER):
+        try:
+            os.remove(f)
+        except OSError:
+            pass
+
+
+import atexit
+atexit.register(_cleanup)
 
 
 def build_harness():
@@ -125,9 +162,23 @@ def _pipe(lines, workdir, idx):
     with open(inp, "w") as f:
         f.write("\n".join(lines) + "\n")
     env = dict(os.environ, GOMEMLIMIT="3GiB")
-    with open(inp) as fi, open(mid, "w") as fo:
-        p = subprocess.run([HARNESS], stdin=fi, stdout=fo, stderr=subprocess.PIPE, env=env, timeout=3600)
-    impl = open(mid).read().splitlines()
+    hang_s = float(os.environ.get("VERIF_HANG_S", "240"))
+    with open(inp) as fi, open(mid, "w") as fo, open(os.path.join(workdir, "err%d.txt" % idx), "w") as fe:
+        p = subprocess.Popen([HARNESS], stdin=fi, stdout=fo, stderr=fe, env=env)
+        # watchdog: the harness answers line by line (flushed); no new answer for hang_s seconds = the
+        # implementation hangs on the next line, which is then reported like a crash
+        last, t_last = -1, time.time()
+        while p.poll() is None:
+            time.sleep(0.2)
+            sz = os.path.getsize(mid)
+            if sz != last:
+                last, t_last = sz, time.time()
+            elif time.time() - t_last > hang_s:
+                p.kill()
+                p.wait()
+                break
+    impl = open(mid).read().split("\n")
+    impl = impl[:-1]        # drop the unterminated tail (empty when the output ends with a newline)
     crashed = None
     if p.returncode != 0 or len(impl) != len(lines):
         # the harness died (unrecoverable runtime error): the next line is the culprit
